@@ -112,7 +112,7 @@ arr_real istft(const std::vector<arr_cmplx>& xx, const arr_real& win, int overla
     //normalize
     //TODO: slice arithmetic, array view
     for (int i = 0; i < xlen; ++i) {
-        norm_val[i] = norm_val[i] < nseg * eps() ? 1 : norm_val[i];
+        norm_val[i] = norm_val[i] <= nseg * eps() ? 1 : norm_val[i];
     }
     x /= norm_val;
 
